@@ -169,7 +169,7 @@ def run_config(prog, f, E, cfg, union, limit=300):
         fr = S.Frame(f)
         for i, p in enumerate(f.get('params', [])):
             pn = p.get('name') or ''
-            if pn == 'inplaceCapa':
+            if pn == 'inplaceCapa' or (nm == 'resetToSmall' and A.width(p['t'])):      # the inline capacity, whatever the parameter is called
                 fr.env[('p', i)] = ('int', dict(NN_))
             elif A.width(p['t']) and p['t'].replace('const ', '').strip() != 'bool':
                 fr.env[('p', i)] = ('int', {'REQ': 1})
